@@ -363,7 +363,7 @@ func genDag(r *Rng, goals *[]CertGoal, st *certStats) {
 			case "Exp", "Sinh":
 				okd = math.Abs(va) < 20
 			case "Tan":
-				okd = math.Abs(math.Cos(va)) > 0.1
+				okd = math.Abs(va) < 1.3 // Coq-Interval encloses tan of a non-point interval only on the principal branch
 			}
 			d := depth[a]
 			if op == "Add" || op == "Sub" || op == "Mul" || op == "Div" || op == "Pow" {
